@@ -82,9 +82,10 @@ def run(ctx):
     scs = []
     froms = [None, b"a@x.org", b"\xc3\xa9@example.com", b"\"a b\"@example.com"]
     tolists = [[b"b@y.org"], [b"b@y.org", b"\"<>\"@example.com", b"c@z.org"], [b"user@\xc3\xa9x.example"], [b"-f@example.com", b"x@[127.0.0.1]"],
+               [b"v6@[2001:DB8:0:0:0:0:0:1]", b"w@[IPv6:2001:db8::1]", b"l@[::1]"],
                [b"b@y.org", b"b@y.org"], [b"r%d@many.example" % i for i in range(5)]]
     msgs = [b"hello\r\n", b"caf\xc3\xa9\r\n", b"\xff\x00", b""]
-    ext_sets = [[], [b"8BITMIME"], [b"SMTPUTF8"], [b"8BITMIME", b"SMTPUTF8"], [b"8bitmime", b"smtputf8", b"SIZE 10"], [b"X 8BITMIME SMTPUTF8"]]
+    ext_sets = [[], [b"8BITMIME"], [b"SMTPUTF8"], [b"8BITMIME", b"SMTPUTF8"], [b"8bitmime", b"smtputf8", b"SIZE 10"], [b"X 8BITMIME SMTPUTF8"], [b"PIPELINING", b"8BITMIME", b"SMTPUTF8", b"CHUNKING", b"DSN"]]
     refusals = [None, ("mail", b"550 no\r\n"), ("rcpt0", b"451-try\r\n451 later\r\n"), ("rcptlast", b"550 unknown\r\n"), ("data", b"554 no data\r\n"), ("eod", b"552 too big\r\n")]
     combos = list(itertools.product(froms, tolists, msgs, ext_sets, refusals))
     if ctx.tier == "quick":
@@ -106,7 +107,7 @@ def run(ctx):
     bad, parsed, ml = run_differential(ctx, scs)
     ctx.cov["correspondence"]["dialogue"] = {"scenarios": len(scs), "flavors": ["sync", "tokio"], "disagreements": len(bad)}
     ctx.cov["exhaustive"] = ctx.tier == "thorough"
-    ctx.cov["rule"] = ("product of 4 reverse paths x 6 recipient lists x 4 contents x 6 advertised-extension sets x 6 refusal points (quick: seeded sample of 700; thorough: all), "
+    ctx.cov["rule"] = ("product of 4 reverse paths x 7 recipient lists x 4 contents x 7 advertised-extension sets (one announcing PIPELINING, CHUNKING, DSN) x 6 refusal points, a third of the envelopes passed through serde first (quick: seeded sample of 700; thorough: all), "
                        "run on the extracted Coq client model and on the real sync and tokio clients; byte streams and results compared; an independent acceptor checks alternation, EHLO first, exact MAIL/RCPT/DATA lines, extension parameters iff needed and offered, no stray CR/LF")
     for sc in scs:
         ctx.nontrivial(repr((sc["ops"], sc["script"][1])))
@@ -116,7 +117,13 @@ def run(ctx):
         if pm is None or model_stalls(pm[0]):
             continue
         for fl in ("sync", "tokio"):
-            impl_scs.append(impl_scenario(sc, pm[1], fl, len(impl_scs))); idx.append((i, fl))
+            isc = impl_scenario(sc, pm[1], fl, len(impl_scs))
+            if i % 3 == 1:
+                # the envelope as read back from a spool (serialized and deserialized): same dialogue
+                for o in isc["ops"]:
+                    if o["op"] == "send":
+                        o["via_json"] = True
+            impl_scs.append(isc); idx.append((i, fl))
     res = run_scenarios(impl_scs)
     obad = []
     for (i, fl), r, isc in zip(idx, res, impl_scs):
